@@ -115,13 +115,19 @@ def cstrs(toks):
 
 
 def attribute(verb, perm):
-    """finding key for a failing permutation (list of (connective, body))"""
+    """finding key for a failing permutation (list of (connective, body)): the specific input
+    shape of each known finding, nothing wider"""
     for v, c, nexts, key in FINDING_KEYS:
         if v != verb:
             continue
-        for (a, _), (b, _) in zip(perm, perm[1:]):
-            if a == c and b in nexts:
-                return key
+        for (a, body), (b, _) in zip(perm, perm[1:]):
+            if a != c or b not in nexts:
+                continue
+            if key == "framer-via-absorbs-first" and not (body and body[-1] in ("framer", "frame", "actor")):
+                continue        # only a relation without its optional name can take 'first' for the name
+            if key == "server-for-absorbs-in" and "in" in body:
+                continue        # only a source without a field list reads the next 'in' as its own
+            return key
     return None
 
 
